@@ -150,6 +150,7 @@ def evaluate(case):
             t += "Model: items+=Item;\nItem: " + " | ".join([f"U{j}" for j in vis] + (["Both"] if both else [])) + ";\n"
             if both:
                 t += f"Both: 'both' (c={both[0]} | c={ns(case, both[1])}.{both[0]});\n"
+                t += f"AnyBoth: {both[0]} | {ns(case, both[1])}.{both[0]};\n"
         if case.get("comments"):
             t += "Comment: /\\/\\/.*?$/;\n" if i == 0 else "Comment: /#.*?$/;\n"
         tgt = resolve(case, i, f["uses"])
@@ -252,6 +253,13 @@ def evaluate(case):
                     o = mm.model_from_str(t2).items[0].c
                     if getattr(type(o), "_tx_fqn", None) != ns(case, fi) + "." + r:
                         out.add("both/wrong_rule_chosen", ctx + f": input {t2!r}: object of {getattr(type(o), '_tx_fqn', None)}")
+                    else:
+                        from textx import textx_isinstance
+
+                        # AnyBoth: R | gj.R - two classes with the same simple name below one abstract rule
+                        if not textx_isinstance(o, mm["AnyBoth"]):
+                            out.add("both/not_instance_of_abstract_rule", ctx + f": the {ns(case, fi)}.{r} object is not an "
+                                    f"instance of AnyBoth ({r} | {ns(case, j)}.{r})")
                 except TextXError as e:
                     out.add("both/rejected", ctx + f": input {t2!r}: {e}")
         # parse one item per user rule visible from the root and follow the chain
